@@ -196,6 +196,37 @@ Section Hashes.
     | _, _, _ => None
     end.
 
+  (** [discard_patch]: only a pending patch above the base can be discarded. *)
+  Definition mf_discard (st : mfrec) : option mfrec :=
+    if committed st then None else
+    match r_stack st, r_ubs st, r_disk st with
+    | _ :: (_ :: _) as R, _ :: us, _ :: ds => Some (MkRec R us (r_mf st) ds (r_next st))
+    | _, _, _ => None
+    end.
+
+  (** The operations a client can issue on the record, with their refusals: a commit needs a
+      writable newest container, accepts no unknown keyword and no read-only handle (the guards
+      of [IH5Record.commit_patch]); [create_patch] needs everything committed; [discard_patch]
+      a pending patch.  A refused operation leaves the record — containers, user blocks, loaded
+      manifest and the manifests on disk — as it was. *)
+  Inductive mfop : Type :=
+  | MCommit (given : option exts)
+  | MCommitKw            (* commit_patch(<unknown keyword>=...) *)
+  | MCommitRo            (* commit_patch() through a handle opened 'r' *)
+  | MCreatePatch
+  | MDiscard
+  | MOps (ops : list op).
+
+  Definition mf_step (st : mfrec) (o : mfop) : mfrec * bool :=
+    let r := match o with
+             | MCommit g => mf_commit false g st
+             | MCommitKw | MCommitRo => None
+             | MCreatePatch => mf_create_patch st
+             | MDiscard => mf_discard st
+             | MOps ops => Some (mf_ops ops st)
+             end in
+    match r with Some st' => (st', true) | None => (st, false) end.
+
   (** One round = (a new patch unless the newest container is still writable,) operations,
       commit.  A history of the real record is a list of rounds. *)
   Definition mf_round (r : list op * option exts) (st : mfrec) : option mfrec :=
@@ -332,8 +363,57 @@ Definition of_open (fs : list Chain.file) : sx :=
 
 Definition of_conts (R : stack) : sx := L (map (λ ic : nat * cont, of_cont ic.2) (rev R)).
 
+(** Second case form [(faults rounds)], rounds = list of [(ops given pending committed)]:
+    [pending] / [committed] name operations issued before / after the commit of the round; the
+    result says for each whether it took effect.  (Refused operations leave the state alone —
+    [C10_refused_ops_frame] — so the main trace is not affected by them.) *)
+Definition fault_of (s : string) : option mfop :=
+  if String.eqb s "double_commit" then Some (MCommit None)
+  else if String.eqb s "commit_kw" then Some MCommitKw
+  else if String.eqb s "commit_ro" then Some MCommitRo
+  else if String.eqb s "create_patch" then Some MCreatePatch
+  else if String.eqb s "discard" then Some MDiscard
+  else None.
+
+Definition run_faults (st : mfrec) (fs : list string) : sx :=
+  L (map (λ f, match fault_of f with
+               | Some o => of_bool (mf_step rH rHp st o).2
+               | None => A "?"
+               end) fs).
+
+Definition sx_fround (x : sx) : option ((list op * option exts) * (list string * list string)) :=
+  match x with
+  | L [o; g; p; c] =>
+      match sx_round (L [o; g]), sx_strings p, sx_strings c with
+      | Some r, Some p, Some c => Some (r, (p, c))
+      | _, _, _ => None
+      end
+  | _ => None
+  end.
+
+Fixpoint trace_faults (rs : list ((list op * option exts) * (list string * list string)))
+    (st : mfrec) : list sx :=
+  match rs with
+  | [] => []
+  | (r, (p, c)) :: rest =>
+      match (if committed st then mf_create_patch st else Some st) with
+      | None => [A "stuck"]
+      | Some st1 =>
+          let st1' := mf_ops r.1 st1 in
+          match mf_commit rH rHp false r.2 st1' with
+          | None => [A "stuck"]
+          | Some st2 => L [run_faults st1' p; run_faults st2 c] :: trace_faults rest st2
+          end
+      end
+  end.
+
 Definition run_c10 (x : sx) : sx :=
   match x with
+  | L [A "faults"; rs] =>
+      match sx_map sx_fround rs with
+      | Some rounds => L (trace_faults rounds (mf_new 1))
+      | None => sx_bad "c10 faults"
+      end
   | L [rs; upd] =>
       match sx_map sx_round rs, sx_round upd with
       | Some rounds, Some u =>
